@@ -6,6 +6,7 @@ def register(check, TIERB_NOTE):
           "Seeded search over operation histories on every generated ordered map of the corpus (single-key, multi-key, nested; direct methods and "
           "parent helpers), each call checked against an insertion-ordered unique-key reference model, with rejected operations (duplicate / nil key, "
           "nil element, nil receiver) injected as faults that must leave the map unchanged, returned slices mutated to prove they are copies, and "
+          "slices returned earlier kept to see that later calls leave them alone, and "
           "order compared after JSON, gNMI and DeepCopy round trips; ordered lists keyed by unions and enumerations (zero-valued union keys included) come from a "
           "package of their own. The ordered-map code is regenerated from YANG by the working tree's own generator "
           "at check time, so a change to the templates is what gets tested. Exploration is the right level: the property quantifies over histories and "
@@ -33,7 +34,8 @@ def register(check, TIERB_NOTE):
           "new entries), payloads built by the harness's own TypedValue / RFC 7951 encoders from type-correct generated values; after each successful set the "
           "walker's leaf set may differ from the previous one only in the target leaf and the key leaves of entries created on the way, and GetNode must return "
           "exactly one node holding the value in the leaf's Go type. Ill-typed payloads, unknown paths, missing keys and int_vals beyond the leaf's width (with "
-          "TolerateJSONInconsistencies) are injected as failing operations; in a third of the runs equal-valued leaves of the tree share one pointer.",
+          "TolerateJSONInconsistencies) are injected as failing operations; in a third of the runs equal-valued leaves of the tree share one pointer "
+          "and leaf-lists of one type one backing array; paths of nodes GetNode returned are kept and must not change. Every execution starts from a simulated process restart.",
           "DESIGN.md §5 (Tier B, C10)", TIERB_NOTE,
           "deterministic simulation: seeded operation histories vs path->value reference model, failing-operation injection, ddmin-minimised replay")
     check("C13", "exploration",
@@ -42,7 +44,7 @@ def register(check, TIERB_NOTE):
           "RFC 7951 encoders, optionally under a common prefix, with overlapping steps inside one request); the recorded effects are applied to a "
           "path -> value reference model in gNMI order and compared (leaf set and ordered-list order) with the harness's walk of the tree after "
           "UnmarshalSetRequest / UnmarshalNotifications. Atomic notifications include empty ones (the subtree at the prefix is replaced by nothing). "
-          "The same container or list entry may be updated twice with different payloads. Requests with one undecodable update, or with a prefix whose target / origin "
+          "The same container or list entry may be updated twice with different payloads; a quarter of the requests carry IgnoreExtraFields, which must not outlive the call. Requests with one undecodable update, or with a prefix whose target / origin "
           "contradicts a path's, are injected as failing operations: they must be rejected.",
           "DESIGN.md §5 (Tier B, C13)", TIERB_NOTE,
           "deterministic simulation: seeded request histories vs gNMI reference model (model-first generation), failing-request injection, ddmin-minimised replay")
@@ -54,7 +56,9 @@ def register(check, TIERB_NOTE):
           "vi+1 as leaf sets (and ordered-list order for DiffWithAtomic), every update/delete sound and minimal against the harness's own models, Diff(a,a) "
           "empty, IgnoreAdditions omits exactly the new leaves. Options MapToSinglePath / PreferShadowPath / IgnoreAdditions are swarm-drawn per step. In a third "
           "of the steps the two versions share memory the way path-copied (copy-on-write) trees do - equal subtrees are one object, a leaf-list or binary value "
-          "that grew or shrank at its end starts at its predecessor's address - which changes no content and must change no answer.",
+          "that grew or shrank at its end starts at its predecessor's address - which changes no content and must change no answer. Notifications of earlier steps are kept and must still read the same after later Diff calls; a "
+          "third of the steps deliver their notifications to a second replica as well; in the fault configuration some steps first call Diff on a version "
+          "that is not schema-conforming, and the call after it is the one that is checked. Every execution starts from a simulated process restart.",
           "DESIGN.md §5 (C03)",
           "Sampling of histories and of delivery orders, not enumeration. Trusted: the harness's walker, its deep clone, the instrumenter's rewrite of map iteration. "
           "Excluded with reason: keyless lists and ordered lists nested in ordered lists (documented as unsupported by ygot).",
@@ -64,14 +68,15 @@ def register(check, TIERB_NOTE):
           "ordered lists empty but not nil) are put through DeepCopy, or two non-conflicting projections through MergeStructs (plain, MergeEmptyMaps, "
           "MergeOverwriteExistingFields); then a seeded history of in-place writes hits one side at mutable locations enumerated by "
           "reflection (pointer targets, map entries deleted and inserted, ordered-map appends, slice elements, bytes of binary values, elements of unkeyed "
-          "lists, wrapper-union structs, ordered-map keys/valueMap) and after every write the deep fingerprint of every other side must be unchanged; DeepCopy's result is also compared with its "
+          "lists, wrapper-union structs, ordered-map keys/valueMap, bytes appended to binary values) and after every write the deep fingerprint of every other side must be unchanged; DeepCopy's result is also compared with its "
           "input (leaf set, ordered-list order, unkeyed-list length). Both aliasing defects this found are repaired in /repo.",
           "DESIGN.md §5 (Tier B, C04)", TIERB_NOTE,
           "deterministic simulation: seeded mutation histories on copy/original pairs with deep-fingerprint frame oracle, ddmin-minimised replay")
     check("C21", "exploration",
           "Deterministic simulation of concurrent callers: 2-4 (thorough: up to 6) tasks run as real goroutines under a seeded cooperative scheduler that "
           "decides every switch (yield points at every function entry, store and lock operation of ygot's runtime packages and of the generated code; "
-          "and in front of every sync/atomic, sync.Map, sync.Once ... operation; random-walk preemption with swarm-drawn mean gap, starvation windows, lock-biased "
+          "and in front of every sync/atomic, sync.Map, sync.Once ... operation; sync.Pool replaced by a deterministic pool shared by all tasks; held locks tracked (a lock "
+          "left held when all tasks have returned, or tasks that only wait for locks, are violations); random-walk preemption with swarm-drawn mean gap, starvation windows, lock-biased "
           "preemption right after a mutex is acquired, regexp-cache evictions as buggify, a simulated process restart - package-level state of the runtime "
           "packages re-initialised - before every interleaved phase, failing operations mixed in). Workloads: read-only operations on one shared tree (Validate, EmitJSON, Marshal7951, "
           "ConstructIETFJSON, TogNMINotifications with shared prefix slices, GetNode with shared path messages, Diff, DiffWithAtomic, DeepCopy, EncodeTypedValue, "
@@ -98,7 +103,8 @@ def register(check, TIERB_NOTE):
           "order matters. Process state is the second schedule dimension: the generators are also run as libraries in seeded sequences of 2-4 generations "
           "inside one process, mixing configuration variants (package names and suffixes, compression, union style, split-by-module, nested messages) "
           "and map orders, and every generation must equal what the same configuration produces as the only generation of a fresh process; a failing "
-          "sequence is shortened while the same class of deviation persists. Every deviation is re-executed with the identical plan before it is reported.",
+          "sequence is shortened while the same class of deviation persists; all results of a sequence are kept and rendered again at its end (a result that then reads differently "
+          "aliases memory a later generation reused). The canonical plan is executed twice (identical plan, identical bytes). Every deviation is re-executed with the identical plan before it is reported.",
           "DESIGN.md §5 (C25)",
           "Sampling of permutations and of the flag lattice; the only sources of nondeterminism in these packages are map iteration order and process state "
           "(no goroutines, no clock), both of which the simulator controls. Trusted: the instrumenter's rewrite (every order it produces is one the Go "
